@@ -229,6 +229,9 @@ impl<'a> Cmd<'a> {
     // malformed width hint (documented as ignored unless it is a number)
     c.env("SOURCE_DATE_EPOCH", "1");
     c.env("IMDL_TERM_WIDTH", "wide");
+    c.env("IMDL_PIECE_LENGTH", "1000");
+    c.env("IMDL_ALLOW", "small-piece-length");
+    c.env("IMDL_OUTPUT", "/nonexistent/from-the-environment.torrent");
     if Path::new("/dev/shm").is_dir() {
       c.env("TMPDIR", "/dev/shm");
     }
